@@ -12,7 +12,7 @@ VS = "/tmp/verif-seed"
 if not os.path.exists(VS):
     subprocess.check_call(["git", "-C", "/verif", "worktree", "add", "-q", "--detach", VS, "main"])
 if "--sync" in sys.argv or not os.path.exists(f"{VS}/lean/.lake"):
-    subprocess.run(["git", "-C", VS, "checkout", "-q", "--detach", "main"])
+    subprocess.run(["git", "-C", VS, "checkout", "-q", "-f", "--detach", "main"])
     subprocess.run(["git", "-C", VS, "checkout", "-q", "--", "."])
 
 
